@@ -211,6 +211,15 @@ class H2Client:
         self.conn.acknowledge_received_data(n, sid)
 
     @untraced
+    def ack_connection_only(self) -> int:
+        """Give back, on the connection window only, everything received and not yet acknowledged."""
+        n = sum(self.unacked.values())
+        self.unacked.clear()
+        if n:
+            self.conn.increment_flow_control_window(n)
+        return n
+
+    @untraced
     def reset(self, sid: int, code: int = 8) -> None:
         self.conn.reset_stream(sid, code)
         self._s(sid).reset = code
